@@ -97,6 +97,20 @@ def run(ctx):
     def _sec_frame():
         nonlocal f, n, ok, q, t
         # --------------------------------------------------------------- frame
+        # the local of maybe_replace_doc_str_in_function_or_class that says "the node after the header is an
+        # existing docstring": the one whose definition tests TripleQuoted and is_docstr, whatever it is called
+        mr = index.func("cdd.shared.ast_cst_utils.maybe_replace_doc_str_in_function_or_class")
+        ed = [
+            n
+            for n in iter_own(mr.node)
+            if isinstance(n, (ast.Assign, ast.AnnAssign))
+            and n.value is not None
+            and isinstance(n.targets[0] if isinstance(n, ast.Assign) else n.target, ast.Name)
+            and "TripleQuoted" in norm(n.value)
+            and "isinstance(" in norm(n.value)
+        ]
+        ctx.need(len(ed) == 1, "the is-an-existing-docstring flag vanished from maybe_replace_doc_str_in_function_or_class")
+        flag = norm(ed[0].targets[0] if isinstance(ed[0], ast.Assign) else ed[0].target)
         n_mut = 0
         for q in (
             "cdd.compound.doctrans_utils.doctransify_cst",
@@ -136,7 +150,7 @@ def run(ctx):
                     continue
                 facts = sa.get(id(site)) or {}
                 if itxt == "cst_idx + 1":
-                    doc = facts.get("existing_doc_str")
+                    doc = facts.get(flag)
                     ok = (doc is True) if kind in ("overwrite", "delete") else (doc is False)
                     ctx.ob(
                         "C07.frame",
@@ -145,29 +159,46 @@ def run(ctx):
                         ok,
                         ""
                         if ok
-                        else "{} of the node after the header is not dominated by `existing_doc_str` being {}: a statement "
+                        else "{} of the node after the header is not dominated by the is-an-existing-docstring flag being {}: a statement "
                         "that is not a docstring can be {}".format(kind, kind != "insert", "destroyed" if kind != "insert" else "preceded by a second docstring"),
                     )
                 else:
                     ctx.ob("C07.frame", f, site, True)
         ctx.count("cst_list_mutations", n_mut)
         ctx.floor("mutations of the CST list", n_mut, 5)
-        mr = index.func("cdd.shared.ast_cst_utils.maybe_replace_doc_str_in_function_or_class")
-        ed = [n for n in iter_own(mr.node) if isinstance(n, (ast.Assign, ast.AnnAssign)) and norm(n.targets[0] if isinstance(n, ast.Assign) else n.target) == "existing_doc_str"]
-        ctx.need(len(ed) == 1, "existing_doc_str vanished")
         v = norm(ed[0].value)
         ok = "isinstance(" in v and "TripleQuoted" in v and "is_docstr" in v and " and " in v
-        ctx.ob("C07.frame", mr, ed[0], ok, "" if ok else "existing_doc_str must require a TripleQuoted node AND its is_docstr flag")
+        ctx.ob("C07.frame", mr, ed[0], ok, "" if ok else "the existing-docstring flag must require a TripleQuoted node AND its is_docstr flag")
         # cst_idx provenance in the driver
         dcst = index.func("cdd.compound.doctrans_utils.doctransify_cst")
-        src = [n for n in iter_own(dcst.node) if isinstance(n, ast.Assign) and "cst_idx" in norm(n.targets[0])]
+        # what the driver hands to the helpers' cst_idx / cst_list parameters
+        idx_names, list_names = set(), set()
+        helper_calls = []
+        for n in iter_own(dcst.node):
+            callee = index.callee(dcst.mod, n, dcst) if isinstance(n, ast.Call) else None
+            if callee and callee.startswith("cdd.shared.ast_cst_utils.maybe_"):
+                tf = index.funcs[callee]
+                bound = {}
+                for i, a in enumerate(n.args):
+                    if i < len(tf.params):
+                        bound[tf.params[i]] = a
+                for k in n.keywords:
+                    if k.arg:
+                        bound[k.arg] = k.value
+                helper_calls.append((n, bound))
+                ok = isinstance(bound.get("cst_idx"), ast.Name) and isinstance(bound.get("cst_list"), ast.Name)
+                ctx.ob("C07.frame", dcst, "{}(cst_idx=<plain local>, cst_list=<plain local>)".format(tf.node.name), ok, "" if ok else "a maybe_* helper is not handed cst_idx / cst_list unchanged", line=n.lineno)
+                if ok:
+                    idx_names.add(bound["cst_idx"].id)
+                    list_names.add(bound["cst_list"].id)
+        ctx.need(helper_calls, "doctransify_cst no longer calls the maybe_* helpers")
+        src = [
+            n
+            for n in iter_own(dcst.node)
+            if isinstance(n, ast.Assign) and any(x.id in idx_names for t in n.targets for x in ast.walk(t) if isinstance(x, ast.Name))
+        ]
         ok = bool(src) and all(isinstance(n.value, ast.Call) and (index.callee(dcst.mod, n.value, dcst) or "").endswith("find_cst_at_ast") for n in src)
         ctx.ob("C07.frame", dcst, "cst_idx comes from find_cst_at_ast", ok, "" if ok else "cst_idx is computed some other way", line=dcst.node.lineno)
-        for n in iter_own(dcst.node):
-            if isinstance(n, ast.Call) and (index.callee(dcst.mod, n, dcst) or "").startswith("cdd.shared.ast_cst_utils.maybe_"):
-                passed = [norm(a) for a in n.args]
-                ok = "cst_idx" in passed and "cst_list" in passed
-                ctx.ob("C07.frame", dcst, short(n, 80), ok, "" if ok else "a maybe_* helper is not handed cst_idx / cst_list unchanged", line=n.lineno)
 
     ctx.section(_sec_frame)
 
